@@ -76,8 +76,16 @@ def gen_functional(g, tier):
                 row.append(row[-1] if (row and g.chance(0.25)) else u())   # ties: no trade
             rows.append(row)
         unit.append(rows)
-    ckind = g.weighted([("none", 2), ("zero", 1), ("pos", 6), ("bcast1", 1), ("badlen", 0.5)])
+    # "any proportional cost rates": the rates are real numbers.  rebate = no positive rate and at least one negative one (maker
+    # rebates, alone or next to frictionless instruments); mixedsign = rebates next to ordinary costs; bcast1neg = one negative rate
+    # for every instrument; tiny = rates far below a basis point (float64 only: they must stay exact)
+    ckind = g.weighted([("none", 2), ("zero", 1), ("pos", 6), ("bcast1", 1), ("badlen", 0.5),
+                        ("rebate", 1.5), ("mixedsign", 1), ("bcast1neg", 0.5), ("tiny", 0.7)])
     cmax = 16 if dtype == "float64" else 4
+    if ckind == "tiny" and dtype != "float64":
+        ckind = "rebate"
+    if ckind == "mixedsign" and H == 1:
+        ckind = "rebate"
     if ckind == "none":
         cost = None
     elif ckind == "zero":
@@ -86,6 +94,23 @@ def gen_functional(g, tier):
         cost = [F(g.randint(0, cmax), 1 << cb) for _ in range(H)]
     elif ckind == "bcast1":
         cost = [F(g.randint(1, cmax), 1 << cb)]
+    elif ckind == "rebate":
+        cost = [F(-g.randint(1, cmax), 1 << cb) if g.chance(0.6) else F(0) for _ in range(H)]
+        if all(x == 0 for x in cost):
+            cost[g.randint(0, H - 1)] = F(-g.randint(1, cmax), 1 << cb)
+    elif ckind == "mixedsign":
+        cost = [F(g.randint(-cmax, cmax), 1 << cb) for _ in range(H)]
+        i = g.randint(0, H - 1)
+        j = (i + g.randint(1, H - 1)) % H
+        cost[i], cost[j] = F(g.randint(1, cmax), 1 << cb), F(-g.randint(1, cmax), 1 << cb)
+    elif ckind == "bcast1neg":
+        cost = [F(-g.randint(1, cmax), 1 << cb)]
+    elif ckind == "tiny":
+        tb = g.choice([16, 20, 24])
+        sg = g.weighted([("pos", 3), ("neg", 1), ("any", 1)])
+        cost = [F(g.randint(0, 16) * (1 if sg == "pos" else -1 if sg == "neg" else g.choice([1, -1])), 1 << tb) for _ in range(H)]
+        if all(x == 0 for x in cost):
+            cost[g.randint(0, H - 1)] = F(-1 if sg == "neg" else 1, 1 << tb)
     else:
         k = H + g.choice([1, 2])
         if H == 1:
@@ -176,7 +201,10 @@ def gen_hedger(g, tier):
     for i in range(nh):
         kind = "primary" if i == 0 else g.weighted([("primary", 2), ("listed", 2), ("self", 1)])
         spot = [[g.dy(F(1, 2), 4, 3) for _ in range(T)] for _ in range(N)]
-        cost = F(g.choice([0, 0, 1, 2, 4, 8, 16]), 256)
+        # cost rates of the traded instruments: frictionless, ordinary, rebates (negative) and tiny ones
+        cost = F(g.choice([0, 0, 1, 2, 4, 8, 16, -1, -4, -16]), 256)
+        if g.chance(0.08):
+            cost = F(g.choice([1, 3, -1]), 1 << 16)
         hedges.append(dict(kind=kind, spot=spot, cost=cost, a=g.choice([1, 2, F(1, 2)]), b=g.choice([0, 1, F(-1, 2)])))
     und = [[g.dy(F(1, 2), 4, 3) for _ in range(T)] for _ in range(N)]
     hedges[0]["spot"] = und
@@ -196,9 +224,17 @@ def gen_hedger(g, tier):
         hedges, w, b, nh = hedges[:1], w[:1], b[:1], 1
     # call sequence: the hedge is asked for before the P&L (as ever), or the P&L is the first thing asked of the fresh market
     order = g.weighted([("hedge_first", 3), ("pl_first", 1)])
+    # a book whose only frictions are rebates: no instrument has a positive rate, at least one has a negative one
+    if g.chance(0.15):
+        for h in hedges:
+            h["cost"] = -abs(h["cost"])
+        if all(h["cost"] == 0 for h in hedges):
+            hedges[g.randint(0, len(hedges) - 1)]["cost"] = F(-g.choice([1, 4, 16]), 256)
+    csign = "none" if all(h["cost"] == 0 for h in hedges) else "pos" if all(h["cost"] >= 0 for h in hedges) else \
+        "rebate" if all(h["cost"] <= 0 for h in hedges) else "mixedsign"
     return dict(kind="hedger", N=N, T=T, hedges=hedges, model=model, strike=strike, w=w, b=b,
                 deriv=deriv, clause=clause, first=True, view=view, passthru=passthru, order=order,
-                tags=dict(model=model, nh=nh, deriv=deriv, order=order, view=view))
+                tags=dict(model=model, nh=nh, deriv=deriv, order=order, view=view, cost=csign))
 
 
 def build_hedger_case(torch, c):
@@ -409,7 +445,7 @@ def check(ctx):
         mant = MANT[c["dtype"]]
         wellshaped = (c["ss"] == c["su"] and not c["final"] and c["tags"]["payoff"] in ("given", "none")
                       and c["tags"]["cost"] != "badlen")
-        nontrivial = wellshaped and c["cost"] is not None and any(x > 0 for x in c["cost"]) \
+        nontrivial = wellshaped and c["cost"] is not None and any(x != 0 for x in c["cost"]) \
             and not c["tags"]["const_spot"] and c["tags"]["sign"] == "mixed" and c["ss"][2] >= 2
         for k, v in c["tags"].items():
             ctx.stats[f"{k}={v}"] += 1
@@ -442,7 +478,17 @@ def check(ctx):
             exp = [wealth(s, u, cc, z, c["first"])
                    for s, u, z in zip(c["spot"], c["unit"], c["payoff"] or [None] * c["ss"][0])]
             if ri[1] != exp:
-                if c["udtype"] != "same":
+                if cc is not None and any(x < 0 for x in cc):
+                    ctx.fail("functional.pl differs from the self-financing wealth identity when a cost rate is negative (a rebate: the rates are "
+                             "any real numbers; the cost term of instrument h is c_h * |position change| * price whatever the sign of c_h)",
+                             small, key="functional.pl:value:negative-cost-rate",
+                             detail={"impl": enc_rat(ri[1]), "wealth": enc_rat(exp), "cost_class": c["tags"]["cost"],
+                                     "any_positive_rate": any(x > 0 for x in cc)})
+                elif c["tags"]["cost"] == "tiny":
+                    ctx.fail("functional.pl differs from the self-financing wealth identity when the cost rates are tiny (2^-24 .. 2^-12)",
+                             small, key="functional.pl:value:tiny-cost-rate",
+                             detail={"impl": enc_rat(ri[1]), "wealth": enc_rat(exp)})
+                elif c["udtype"] != "same":
                     ctx.fail("functional.pl differs from the self-financing wealth identity when the positions are an integer-dtype tensor (whole shares)",
                              small, key="functional.pl:value:int-unit",
                              detail={"impl": enc_rat(ri[1]), "wealth": enc_rat(exp), "unit_dtype": c["udtype"]})
@@ -482,7 +528,7 @@ def check(ctx):
               for k, vv in c["tags"].items():
                   ctx.stats[f"h:{k}={vv}"] += 1
               moved = any(len(set(r)) > 1 for p in un for r in p)
-              ctx.case(_small_h(c, which), ok and moved and any(x > 0 for x in cost), tag="hedger_" + which)
+              ctx.case(_small_h(c, which), ok and moved and any(x != 0 for x in cost), tag="hedger_" + which)
               ctx.traces += 1
               if not ok:
                   ctx.stats["skipped_inexact"] += 1
@@ -496,7 +542,13 @@ def check(ctx):
               if st == "ok":
                   exp = [wealth(s, u, cost, (pf[i] if pf is not None else None), True)
                          for i, (s, u) in enumerate(zip(sp, un))]
-                  if v != exp and c["model"] == "identity":
+                  if v != exp and any(x < 0 for x in cost):
+                      ctx.fail(f"Hedger.compute_{which} differs from the wealth identity on the hedge spots, its own hedge, the instruments' costs and the payoff "
+                               "when a traded instrument has a negative cost rate (a rebate)",
+                               _small_h(c, which), key=f"hedger.compute_{which}:value:negative-cost-rate",
+                               detail={"impl": enc_rat(v), "wealth": enc_rat(exp), "cost": enc_rat(cost), "round": rnd,
+                                       "hedge": enc_rat(un), "prices": enc_rat(sp), "any_positive_rate": any(x > 0 for x in cost)})
+                  elif v != exp and c["model"] == "identity":
                       ctx.fail(f"Hedger.compute_{which} with a pass-through hedging rule on a single price-buffer feature (hold as many shares as the price) "
                                "differs from the wealth identity on the injected hedge prices, its own hedge, the instrument's cost and the payoff",
                                _small_h(c, which), key=f"hedger.compute_{which}:value:passthrough-view-input",
@@ -546,12 +598,13 @@ def check(ctx):
                              note=("composed model hedgerPL/hedgerPortfolio from the generated data alone; " + note)[:700])
     return ctx.finish(
         rule="functional: random (N,H,T) shapes with dyadic spot/unit/payoff/cost grids sized so float64/float32 commit no rounding; "
-             "non-trivial = well-shaped, some cost>0, non-constant prices, positions of both signs, T>=2. "
+             "non-trivial = well-shaped, some cost rate != 0, non-constant prices, positions of both signs, T>=2. "
+             "cost vectors: None / zero / positive / one broadcast rate / rebates (no positive rate, some negative) / mixed signs / one negative broadcast rate / tiny (2^-24..2^-12, float64). "
              "integer-dtype (int64/int32) whole-share positions against floating-point prices included. "
              "hedger: real Hedger (linear/ReLU/prev_hedge/Naked models with dyadic weights, and pass-through modules on a single price-buffer feature) "
-             "on injected dyadic buffers with primary and listed hedges, hedge-then-P&L and P&L-first call orders; "
+             "on injected dyadic buffers with primary and listed hedges (cost rates zero / positive / negative / tiny, incl. books whose only frictions are rebates), hedge-then-P&L and P&L-first call orders; "
              "every hedger scenario and round is also run through the composed model `hedgerPL`/`hedgerPortfolio` (op hedger_pl) from the generated data alone; "
-             "non-trivial = hedge moves, some cost>0, exactly representable. distinct = sha1 of the canonical case.")
+             "non-trivial = hedge moves, some cost rate != 0, exactly representable. distinct = sha1 of the canonical case.")
 
 
 def _small_h(c, which):
